@@ -662,13 +662,85 @@ func (g *gen) addl(d int) *S {
 	return s
 }
 
+// refDoc grafts a small table of definitions onto a root object: definitions
+// that are referenced more than once (from two properties of the root, from
+// the root and from another definition), chains (a definition that is only a
+// reference to a later one) and references below items / properties of a
+// definition.  Targets are argSchemas (the validated domain of $ref targets)
+// without additionalProperties:false; the use sites are property values and
+// items of the root, never the root chain itself.
+func (g *gen) refDoc(root *S, d int) bool {
+	if root.IsBool {
+		return false
+	}
+	r := g.r
+	n := 1 + r.Intn(3)
+	defs := make([]*S, n)
+	for i := n - 1; i >= 0; i-- {
+		t := g.argSchema(d)
+		t.walk(func(x *S) {
+			if !x.IsBool && x.Addl != nil && x.Addl.IsBool && !x.Addl.B {
+				x.Addl = nil
+			}
+		})
+		if i < n-1 && r.Chance(2, 3) {
+			later := defs[i+1+r.Intn(n-1-i)]
+			switch r.Intn(3) {
+			case 0:
+				t = &S{Ref: later}
+			case 1:
+				if !t.IsBool && t.Items == nil && !t.HasPrefix {
+					t.Items = &S{Ref: later}
+				}
+			case 2:
+				if !t.IsBool && !t.HasProps {
+					t.HasProps = true
+					t.Props = []PS{{Name: g.name(), S: &S{Ref: later}}}
+				}
+			}
+		}
+		defs[i] = t
+	}
+	used := false
+	names := []string{"r", "r2", "rx"}
+	k := 1 + r.Intn(3)
+	for i := 0; i < k; i++ {
+		target := defs[r.Intn(n)]
+		if i == 0 {
+			target = defs[0]
+		}
+		if r.Chance(1, 4) && root.Items == nil && !root.HasPrefix {
+			root.Items = &S{Ref: target}
+			used = true
+			continue
+		}
+		dup := false
+		for _, p := range root.Props {
+			if p.Name == names[i] {
+				dup = true
+			}
+		}
+		if dup {
+			continue
+		}
+		root.HasProps = true
+		root.Props = append(root.Props, PS{Name: names[i], S: &S{Ref: target}})
+		used = true
+	}
+	return used
+}
+
 // errorSchema: a root schema the importer must reject.
 func (g *gen) errorSchema(d int) *S {
 	s := g.schema(d, posRoot)
 	if s.IsBool {
 		return sbool(false)
 	}
-	switch g.r.Intn(8) {
+	switch g.r.Intn(9) {
+	case 8:
+		// a reference to a definition that does not exist
+		s.HasProps = true
+		s.Props = append(s.Props, PS{Name: "rm", S: &S{RefMissing: true}})
 	case 0:
 		s.MultipleOf = i64p(int64(-g.r.Intn(2)))
 	case 1:
